@@ -30,6 +30,8 @@ ASSUMPTIONS = ['int64 arithmetic of NumPy is arithmetic modulo 2^64 (wrap64 in t
                'per case to denote the double to within half an ulp']
 PARTIAL = ['C18_float_rational_partial: the float parser is proved to compute the exact rational denoted by the text; '
            'the rounding error of its double-precision evaluation is tested (<= 4 ulp), not proved',
+           'C18_lists_split_partial: the list-column parser is proved for columns whose every row holds >= 1 number; '
+           'columns containing empty lists are tested by the correspondence (repaired parser, /repo 8a5819c)',
            'C18_format_canonical is proved for the repaired width function (notes/C18.fix-1.diff); for the pinned '
            'code it is refuted (C18_format_pinned_refuted) and proved below 10^15-2 (C18_format_pinned_partial)']
 PER_FILE = 16
